@@ -46,6 +46,8 @@ CORPUS = [
     "T#1h_30m", "t#1.5s", "TOD#12:00:00", "D#2020-01-01", "DT#2020-01-01-12:00:00.5", "INT#-5", "16#FF_FF",
     "2#1010_1", "8#17", "%QX1.2.3", "%MW10", "%I*", "%q*", "BOOL#1", "x.y[1,2].z", "a**b", "a<=b>=c<>d",
     "VAR_IN_OUT", "var_in_out", "Var_In_Out x", "FUNCTION_BLOCKX", "END_FUNCTION_BLOCK", "TOD", "DT", "DATE_AND_TIME",
+    "\ufeffx := 1;", "\ufeff", "x\ufeffy", "\ufeffPROGRAM p\nVAR x : INT; END_VAR\nx := 1;\nEND_PROGRAM\n", "\u00a0x", "x\u2028y",
+    "x\u0085y", "\ufeff(* c *) x", "\ufeff\ufeffx", "\u200bx y", "\ufffe x",
     "mod", "MOD", "Mod", "not", "NOT", "AND", "and", "OR", "xor", "R_EDGE", "f_edge", "EN", "ENO", "eno1", "_x", "x_", "__",
 ]
 
